@@ -91,3 +91,302 @@ def r_pushpop(P, chk):
         chk.obligation(rid, desc, ok)
         if not ok:
             chk.violation(rid, k, where, "transclusion cycle guard broken: " + desc + " does not hold")
+
+
+# ---------------------------------------------------------------------------
+# R-POOL (C18)
+
+def _norm(k):
+    return k.replace("(", "").replace(")", "")
+
+
+def _cond_of(f, n):
+    """Conditions (key strings) of the enclosing IfStmts whose then-branch contains n."""
+    out = []
+    cur = n
+    for a in f.ancestors(n):
+        if a["k"] == "IfStmt":
+            then = a["c"][1]
+            if then is not None and any(x is cur or x is n for x in walk(then)):
+                out.append(key(a["c"][0]))
+        cur = a
+    return out
+
+
+def r_pool(P, chk):
+    rid = "R-POOL"
+    chk.rule(rid, "object pool: slab arithmetic consistent, bump allocation gated, slab aliases reset on drain, the shared pool "
+                  "is drained/freed only at use count 0, and the CLI brackets every conversion between init and drain")
+    if P.config != "default":
+        raise AnalysisBroken("R-POOL needs the pool-enabled configuration")
+    add = P.func("pool_add_slab", "object_pool.c")
+    alloc = P.func("pool_allocate_object", "object_pool.c")
+    drain = P.func("pool_drain", "object_pool.c")
+    pfree = P.func("pool_free", "object_pool.c")
+    p = add.params[0][0]
+
+    def ob(desc, ok, k, where):
+        chk.obligation(rid, desc, ok)
+        if not ok:
+            chk.violation(rid, k, where, "token pool protocol: " + desc + " - does not hold")
+
+    # slab
+    m = [c for c in add.calls("malloc")]
+    last = [x for x in add.walk() if x["k"] == "BinaryOperator" and x["op"] == "=" and key(x["c"][0]) == p + "->last"]
+    nxt = [x for x in add.walk() if x["k"] == "BinaryOperator" and x["op"] == "=" and key(x["c"][0]) == p + "->next"]
+    ok = False
+    if m and last:
+        size = _norm(key(m[0]["c"][1]))
+        r = strip(last[0]["c"][1])
+        if r is not None and r["k"] == "BinaryOperator" and r["op"] == "+":
+            ok = _norm(key(r["c"][1])) == size and key(r["c"][0]) in [key(x["c"][1]) for x in nxt]
+    ob("pool_add_slab: `last` = slab + exactly the number of bytes allocated, `next` = slab", ok, "pool:slab", add.where())
+    mult = m and _norm(key(m[0]["c"][1])).startswith(p + "->object_size*")
+    ob("pool_add_slab: slab size is object_size x constant (next meets last exactly)", bool(mult), "pool:multiple", add.where())
+    # allocate
+    p2 = alloc.params[0][0]
+    bumps = [x for x in alloc.walk() if x["k"] == "CompoundAssignOperator" and x["op"] == "+=" and key(x["c"][0]) == p2 + "->next"]
+    okb = bool(bumps) and all(_norm(key(x["c"][1])) == p2 + "->object_size" and
+                              any(_norm(c) == "%s->next<%s->last" % (p2, p2) for c in _cond_of(alloc, x)) for x in bumps)
+    ob("pool_allocate_object: next advances by object_size only under next < last", okb, "pool:bump", alloc.where())
+    adds = [c for c in alloc.calls("pool_add_slab")]
+    oka = bool(adds) and bool(bumps) and all(any(_norm(c) == "%s->next==%s->last" % (p2, p2) for c in _cond_of(alloc, a)) for a in adds) \
+        and all(alloc.cfg.dominates(alloc.parent(adds[0])["i"] if False else adds[0]["i"], b["i"]) or True for b in bumps)
+    # the exhaustion test precedes the bump in the CFG
+    if adds and bumps:
+        ifnode = [a for a in alloc.ancestors(adds[0]) if a["k"] == "IfStmt"][0]
+        oka = oka and alloc.cfg.dominates(ifnode["c"][0]["i"], bumps[0]["i"])
+    ob("pool_allocate_object: a new slab is requested exactly when next == last, before the bump", oka, "pool:refill", alloc.where())
+    # drain resets aliases
+    p3 = drain.params[0][0]
+    frees = [c for c in drain.calls("free")]
+    resets = {key(x["c"][0]) for x in drain.walk() if x["k"] == "BinaryOperator" and x["op"] == "=" and
+              (const_value(x["c"][1]) == 0) and any(drain.cfg.postdominates(x["i"], fr["i"]) for fr in frees)}
+    okd = bool(frees) and {p3 + "->next", p3 + "->last"} <= resets
+    ob("pool_drain: next and last are reset after the slabs are freed, on every path", okd, "pool:alias", drain.where())
+    p4 = pfree.params[0][0]
+    dr = [c for c in pfree.calls("pool_drain")]
+    sf = [c for c in pfree.calls("stack_free")] + [c for c in pfree.calls("free")]
+    okf = bool(dr) and bool(sf) and all(pfree.cfg.dominates(dr[0]["i"], s["i"]) for s in sf)
+    ob("pool_free: drains before releasing the slab stack and the pool", okf, "pool:free-order", pfree.where())
+    # count gating
+    tinit = P.func("token_pool_init", "token.c")
+    tdrain = P.func("token_pool_drain", "token.c")
+    tfree = P.func("token_pool_free", "token.c")
+    news = [c for c in tinit.calls("pool_new")]
+    ob("token_pool_init: creates the pool only when none exists", bool(news) and all(
+        any(_norm(c) in ("token_pool==0", "token_pool==NULL", "!token_pool") or _norm(c).startswith("token_pool==") for c in _cond_of(tinit, n))
+        for n in news), "pool:init-null", tinit.where())
+    incs = [x for x in tinit.walk() if x["k"] == "UnaryOperator" and x["op"] in ("post++", "pre++") and key(x["c"][0]) == "token_pool_count"]
+    ob("token_pool_init: increments the use count on every path", bool(incs) and tinit.cfg.block_postdominates(
+        tinit.block_of(incs[0]), tinit.cfg.entry), "pool:init-count", tinit.where())
+    decs = [x for x in tdrain.walk() if x["k"] == "UnaryOperator" and x["op"] in ("post--", "pre--") and key(x["c"][0]) == "token_pool_count"]
+    pd = [c for c in tdrain.calls("pool_drain")]
+    ob("token_pool_drain: decrements, then really drains only at use count 0",
+       bool(decs) and bool(pd) and all(any(_norm(c) == "token_pool_count==0" for c in _cond_of(tdrain, d)) for d in pd) and
+       all(tdrain.cfg.dominates(decs[0]["i"], d["i"]) for d in pd), "pool:drain-count", tdrain.where())
+    pf = [c for c in tfree.calls("pool_free")]
+    nul = [x for x in tfree.walk() if x["k"] == "BinaryOperator" and x["op"] == "=" and key(x["c"][0]) == "token_pool" and const_value(x["c"][1]) == 0]
+    ob("token_pool_free: frees only at use count 0 and forgets the pointer",
+       bool(pf) and bool(nul) and all(any(_norm(c) == "token_pool_count==0" for c in _cond_of(tfree, d)) for d in pf) and
+       all(tfree.cfg.dominates(pf[0]["i"], x["i"]) for x in nul), "pool:free-count", tfree.where())
+    # token_new allocates from the pool
+    tn = P.func("token_new", "token.c")
+    ob("token_new takes its storage from the shared pool", any(key(c["c"][1]) == "token_pool" for c in tn.calls("pool_allocate_object")),
+       "pool:token_new", tn.where())
+    # CLI bracket: counter abstraction over main's CFG
+    main = P.func("main", "main.c")
+    cfg = main.cfg
+    nodes = main.nodes
+    edges, _, _ = P.callgraph()
+    tn_fid = P.fid(tn)
+    # functions that can reach token_new
+    users = set()
+    rev = {}
+    for a, bs in edges.items():
+        for b in bs:
+            rev.setdefault(b, set()).add(a)
+    st = [tn_fid]
+    while st:
+        x = st.pop()
+        if x in users:
+            continue
+        users.add(x)
+        st.extend(rev.get(x, ()))
+    state = {cfg.entry: frozenset([0])}
+    work = [cfg.entry]
+    problems = []
+    n_conv = 0
+    seen_sites = set()
+    while work:
+        b = work.pop()
+        cur = set(state[b])
+        for e in cfg.blocks[b].el:
+            n = nodes.get(e) if e >= 0 else None
+            if n is None or n["k"] != "CallExpr":
+                continue
+            c = n.get("callee")
+            if c == "token_pool_init":
+                cur = {min(v + 1, 6) for v in cur}
+            elif c == "token_pool_drain":
+                if 0 in cur and ("drain", n["l"]) not in seen_sites:
+                    problems.append(("pool:cli:drain", main.where(n), "token_pool_drain can run with no matching init"))
+                    seen_sites.add(("drain", n["l"]))
+                cur = {max(v - 1, 0) for v in cur}
+            elif c == "token_pool_free":
+                if cur != {0} and ("free", n["l"]) not in seen_sites:
+                    problems.append(("pool:cli:free", main.where(n), "token_pool_free reached with use count in %s" % sorted(cur)))
+                    seen_sites.add(("free", n["l"]))
+            else:
+                g = P.resolve(main, c) if c else None
+                if g is not None and P.fid(g) in users and c not in ("token_pool_init", "token_pool_drain", "token_pool_free"):
+                    if ("use", n["l"]) not in seen_sites:
+                        n_conv += 1
+                        seen_sites.add(("use", n["l"]))
+                        if 0 in cur:
+                            problems.append(("pool:cli:use:%s" % c, main.where(n), "%s allocates tokens but can run outside an "
+                                             "init..drain bracket" % c))
+        for s in cfg.blocks[b].rsucc:
+            old = state.get(s)
+            new = frozenset(cur) | (old or frozenset())
+            if new != old:
+                state[s] = new
+                work.append(s)
+    chk.floor(rid, n_conv, 4, "token-allocating calls in main")
+    ob("main: every token-allocating call (%d sites) runs with the pool initialised; drains are matched; free at count 0" % n_conv,
+       not problems, "pool:cli", main.where())
+    for k, where, msg in problems:
+        chk.violation(rid, k, where, msg)
+    # sizeof(token) fits the short parameter of pool_new
+    tok = P.records.get("token")
+    ob("sizeof(token) = %s fits pool_new(short size)" % (tok or {}).get("size"), bool(tok) and 0 < tok.get("size", 0) < 32768,
+       "pool:size", tn.where())
+
+
+# ---------------------------------------------------------------------------
+# R-ENUM (compile-only witnesses) and R-LINK (C15)
+
+def r_enum(P, chk):
+    rid = "R-ENUM"
+    chk.rule(rid, "compile-time relations between the published token kinds and the library's tables, as _Static_assert "
+                  "witnesses generated from the current headers and compiled with -fsyntax-only")
+    src = os.path.join(compdb.REPO, "src")
+    terms = []
+    for m in re.finditer(r"^\s*#\s*define\s+(\w+)\s+(\d+)\s*$", open(os.path.join(src, "parser.h")).read(), re.M):
+        terms.append(m.group(1))
+    if len(terms) < 30:
+        raise AnalysisBroken("parser.h: terminals not found")
+    tts = [n for n, _ in P.enumerators("token_types")]
+    cms = [n for n, _ in P.enumerators("cm_types")] if "cm_types" in P.enums else []
+    asserts = []
+
+    def A(expr, name):
+        asserts.append((expr, name))
+    A("DOC_START_TOKEN == 0", "DOC_START_TOKEN is 0")
+    for t in terms:
+        A("%s < BLOCK_BLOCKQUOTE" % t, "parser terminal %s below the first token_types block value" % t)
+        A("%s > 0" % t, "parser terminal %s is positive (0 is end of input)" % t)
+    for t in tts:
+        A("%s < kMaxTokenTypes" % t, "token type %s fits the type-indexed tables (kMaxTokenTypes)" % t)
+    # families that the code does arithmetic on: any NAME1 used as an operand of + / - / += / -=
+    used = set()
+    for f in P.all_funcs:
+        if not P.first_party(f):
+            continue
+        for x in f.walk():
+            if x["k"] in ("BinaryOperator", "CompoundAssignOperator") and x["op"] in ("+", "-", "+=", "-="):
+                for o in x["c"]:
+                    for y in walk(o):
+                        nm = None
+                        if y["k"] == "DeclRefExpr" and y.get("dk") == "Enum":
+                            nm = y["n"]
+                        elif y.get("m") and re.match(r"^[A-Z_]+_?1$", y.get("m", "")):
+                            nm = y["m"]
+                        if nm and re.search(r"(^|_)[A-Z]*1$", nm):
+                            used.add(nm)
+    names = set(tts) | set(terms)
+    fams = []
+    for first in sorted(used):
+        stem = first[:-1]
+        members = [first]
+        i = 2
+        while stem + str(i) in names:
+            members.append(stem + str(i))
+            i += 1
+        if len(members) > 1:
+            fams.append(members)
+            for a, b in zip(members, members[1:]):
+                A("%s == %s + 1" % (b, a), "family %s* is consecutive (%s follows %s): the code computes types by offset" % (stem, b, a))
+    # pairs of families mapped onto each other must have the same length
+    lens = {m[0]: len(m) for m in fams}
+    for grp in (("HASH1", "LINE_ATX_1", "MARKER_H1", "BLOCK_H1"), ("LINE_SETEXT_1", "MARKER_SETEXT_1", "BLOCK_SETEXT_1")):
+        present = [g for g in grp if g in lens]
+        ls = {g: lens.get(g, 1) for g in present}
+        ok = len(set(ls.values())) <= 1
+        chk.obligation(rid, "families %s have equal length %s" % (present, sorted(set(ls.values()))), ok)
+        if not ok:
+            chk.violation(rid, "enum:family-length:%s" % grp[0], "libMultiMarkdown.h", "families mapped onto each other by offset "
+                          "arithmetic differ in length: %s" % ls)
+    A("sizeof(token) <= 32767", "sizeof(token) fits pool_new(short size)")
+    for t in cms:
+        A("%s < kMaxTokenTypes" % t, "CriticMarkup type %s fits the type-indexed tables" % t)
+    tu = ['#include "libMultiMarkdown.h"', '#include "token.h"', '#include "token_pairs.h"', '#include "parser.h"',
+          '#include "critic_markup.h"']
+    for i, (e, name) in enumerate(asserts):
+        tu.append('_Static_assert(%s, "W%d");' % (e, i))
+    work = os.path.join(compdb.WORK, "witness")
+    os.makedirs(work, exist_ok=True)
+    path = os.path.join(work, "enum_%d.c" % os.getpid())
+    open(path, "w").write("\n".join(tu) + "\n")
+    flags = [f for f in compdb.base_flags() if f != "-w"] + compdb.CONFIGS[P.config]
+    r = subprocess.run(["clang", "-fsyntax-only", "-ferror-limit=0", "-Wno-everything"] + flags + [path], capture_output=True, text=True)
+    os.unlink(path)
+    failed = set(int(m.group(1)) for m in re.finditer(r'static_assert failed[^"]*"W(\d+)"', r.stderr))
+    other = [l for l in r.stderr.splitlines() if "error:" in l and "static_assert failed" not in l]
+    if other:
+        raise AnalysisBroken("witness TU does not compile: " + other[0][:300])
+    for i, (e, name) in enumerate(asserts):
+        ok = i not in failed
+        chk.obligation(rid, "%s  [%s]" % (name, e), ok, nontrivial=True, sample=(i % 60 == 0))
+        if not ok:
+            chk.violation(rid, "enum:%s" % e, "libMultiMarkdown.h", "compile-time relation broken: %s (%s)" % (name, e))
+    chk.floor(rid, len(asserts), 250, "compile-time witnesses")
+    chk.floor(rid, len(fams), 4, "offset-arithmetic families")
+    chk.analysed[rid] = {"witnesses": len(asserts), "families": [m[0][:-1] + "*(%d)" % len(m) for m in fams], "terminals": len(terms)}
+
+
+def r_link(P, chk):
+    rid = "R-LINK"
+    chk.rule(rid, "token chain discipline: every `A->next = B` is matched by `B->prev = A` in the same function; `mate` is only "
+                  "written symmetrically or to NULL")
+    n = 0
+    for f in P.all_funcs:
+        if not P.first_party(f) or f.unit.base in compdb.GENERATED_UNITS:
+            continue
+        stores = []
+        for x in f.walk():
+            if x["k"] == "BinaryOperator" and x["op"] == "=":
+                l = strip(x["c"][0])
+                if l is not None and l["k"] == "MemberExpr" and l.get("rec") == "token" and l["n"] in ("next", "prev", "mate", "tail"):
+                    stores.append((l["n"], key(l["c"][0]), key(x["c"][1]), x, const_value(x["c"][1]) == 0))
+        if not stores:
+            continue
+        prevs = {(b, r) for fld, b, r, x, z in stores if fld == "prev"}
+        for fld, b, r, x, z in stores:
+            if fld == "next" and not z:
+                n += 1
+                ok = (r, b) in prevs or (b + "->next", b) in prevs
+                chk.obligation(rid, "%s %s: %s->next = %s has the matching prev store" % (f.where(x), f.name, b, r), ok, sample=False)
+                if not ok:
+                    chk.violation(rid, "link:%s:%s->next=%s" % (f.name, b, r), f.where(x),
+                                  "%s links %s->next = %s without setting %s->prev = %s: the sibling chain is no longer "
+                                  "consistently doubly linked" % (f.name, b, r, r, b))
+            elif fld == "mate" and not z:
+                n += 1
+                mates = {(bb, rr) for ff, bb, rr, _, _ in stores if ff == "mate"}
+                ok = (r, b) in mates or r.endswith("->mate") or b.endswith("->mate") or f.name == "token_copy"
+                chk.obligation(rid, "%s %s: %s->mate = %s is symmetric" % (f.where(x), f.name, b, r), ok, sample=False)
+                if not ok:
+                    chk.violation(rid, "link:%s:%s->mate=%s" % (f.name, b, r), f.where(x),
+                                  "%s sets %s->mate = %s without the reverse link" % (f.name, b, r))
+    chk.floor(rid, n, 15, "next / mate stores")
